@@ -156,6 +156,7 @@ func getLabelsParams(r *http.Request) (*promLabelsParams, error) {
 	if r.Method == "POST" && r.Header.Get("content-type") == "application/x-www-form-urlencoded" {
 		rawParams := rawPromLabelsParams{}
 		dec := schema.NewDecoder()
+		dec.IgnoreUnknownKeys(true)
 		err := r.ParseForm()
 		if err != nil {
 			return nil, err
